@@ -67,7 +67,10 @@ LEVEL_TEXT = (
     "post(sum_{u<2S} w[u]*phi(sum_{j<M} h_i[j]*X[k*S+u+offs-j])) with X zero-extended (overlap-save validity, block "
     "accumulation for any split of the filtered stream, x-buffer/skip/finalize bookkeeping, all run-time assertions of "
     "the code discharged), and that streaming equals compute_full. The model mirrors the code line by line and is tied "
-    "to it by exact-integer correspondence through the public API (IntFIR bank + integer window). The frame's last step (sum of the two "
+    "to it by exact-integer correspondence through the public API (IntFIR bank + integer window). The integer bookkeeping is tied by translation as well (SiTie: the reset of "
+    "_compute_preamble as a function of the OLD field values, compute_chunk's planning arithmetic and leftover count, all of "
+    "finalize, regenerated from compute.py each run and proved equal to the model's), as is the DFT-size rule (DftSizeTie). "
+    "The frame's last step (sum of the two "
     "half-window accumulators, log floor) is regenerated from compute.py each run and proved to be logFloor(a+b), never "
     "below log(floor) (SiFrameTie). dtype clause: tag in the model + oracle runs."
 )
